@@ -7,6 +7,7 @@ mod netfault;
 mod ops;
 mod oracles;
 mod policy;
+mod push;
 mod qmon;
 mod replica;
 mod run;
@@ -55,10 +56,10 @@ fn plan(p: &str) -> Option<Plan> {
         "C13" => d(&[("adversarial", 4), ("sessions", 4), ("facts", 2)], &["C13", "C06", "C14"], 6000, 80000, "a write-then-fail operation was reverted (origin rejection or failed session operation) and later reads were compared"),
         "C14" => d(&[("sessions", 9), ("dag", 1)], &["C14"], 6000, 80000, "a session performed >= 2 operations including a failed one or a delete of a committed key"),
         "C16" => d(&[("sync-size", 5), ("dag", 4), ("hello", 1)], &["C16"], 1500, 20000, "a complete undisturbed session ran while the requester lacked commands"),
-        "C17" => d(&[("sync-size", 4), ("dag", 4), ("dag-faults", 2)], &["C17"], 1500, 20000, "a session sent >= 2 responses or resumed in the middle of a segment"),
-        "C18" => d(&[("net-chaos", 9), ("dag-faults", 1)], &["C18"], 6000, 80000, "a corrupted, truncated, misdelivered or duplicated message reached a decoder"),
+        "C17" => d(&[("sync-size", 4), ("dag", 4), ("dag-faults", 2), ("push", 3)], &["C17"], 1500, 20000, "a session sent >= 2 responses or resumed in the middle of a segment"),
+        "C18" => d(&[("net-chaos", 9), ("dag-faults", 1), ("push-chaos", 4)], &["C18"], 6000, 80000, "a corrupted, truncated, misdelivered or duplicated message reached a decoder"),
         "C19" => d(&[("hello", 7), ("dag", 2), ("dag-faults", 1), ("crash", 2)], &["C19"], 6000, 80000, "a hello decision 'no sync' was taken between replicas with different head sets"),
-        "C20" => d(&[("cache", 6), ("dag", 3), ("adversarial", 1)], &["C20"], 6000, 80000, "a peer cache update removed an ancestor entry or ignored an uncommitted address"),
+        "C20" => d(&[("cache", 6), ("dag", 3), ("adversarial", 1), ("push", 2)], &["C20"], 6000, 80000, "a peer cache update removed an ancestor entry or ignored an uncommitted address"),
         "C15" => d(&[("crash", 6), ("crash-subsector", 2)], &["C15"], 3000, 40000, "crash inside a commit with >= 1 pending write partially surviving"),
         "C21" => d(&[("dag", 3), ("sync-size", 2), ("adversarial", 1), ("queue", 1)], &["C21"], 3000, 40000, "the run's searches, braids and sync sessions exercised pop, push and at least one of drain_above / cover_up_to / pop_duplicates on a monitored queue"),
         _ => None,
